@@ -80,6 +80,19 @@ impl Check for C13 {
     fn cases(&self, tier: Tier) -> u32 {
         tier.pick(60000, 1000000)
     }
+    fn fixed_cases(&self) -> Vec<ScanCase> {
+        // recorded finding (scnr2): `b.|b.a` does not match "ba"
+        use super::scan::{SMode, STerm};
+        use crate::rx::Rx;
+        let rx = Rx::Alt(vec![Rx::Seq(vec![Rx::Lit('b'), Rx::Dot]), Rx::Seq(vec![Rx::Lit('b'), Rx::Dot, Rx::Lit('a')])]);
+        vec![ScanCase {
+            terms: vec![STerm { rx, quote: crate::ast::Quote::Str, lookahead: None, states: vec![], extra_states: vec![] }],
+            modes: vec![SMode { name: "INITIAL".into(), auto_nl_off: true, auto_ws_off: true, allow_unmatched: true, ..Default::default() }],
+            lr: false,
+            inputs: vec!["ba ".into()],
+            marker: None,
+        }]
+    }
     fn run(&self, c: &ScanCase, st: &mut Stats) -> Verdict {
         let (l, text) = match load_case(c) {
             Ok(x) => x,
